@@ -517,6 +517,58 @@ fn run(out: &mut Shards, st: &mut Stats, kind: &str, s: &Stream, segs: &[(usize,
     }
 }
 
+/// Hand-over between two consumers of the same buffer (the crate does this at the end of the
+/// handshake): all bytes arrive in one pass; the first handler refuses frame `k` (1-based) with an
+/// error; a second `read_from` on the same FrameBuffer - no new bytes, the transport says
+/// would-block at once - must hand on frame k and everything behind it.
+fn run_handover(out: &mut Shards, st: &mut Stats, s: &Stream, k: usize, chunk: Chunk) {
+    let total = s.len();
+    let segs = wb_plan(&[], total);
+    out.reset(json!({"kind": "handover", "stream": s.name, "sizes": s.sizes, "bad": s.bad, "h": s.fps, "k": k,
+                     "chunk": format!("{:?}", chunk)}));
+    st.evaluations += 1;
+    *st.by_kind.entry("handover".to_string()).or_insert(0) += 1;
+    st.distinct.insert(hash_case(&format!("{}-handover-{}", s.name, k), &segs, chunk));
+    let mut fb = FrameBuffer::new();
+    let mut script = Script::new(&s.bytes, &segs, chunk, 1);
+    let mut first: Vec<Value> = Vec::new();
+    let mut seen = 0usize;
+    let r1 = catch_unwind(AssertUnwindSafe(|| {
+        fb.read_from(&mut script, |f| {
+            seen += 1;
+            if seen == k {
+                return Err(Error::FrameUnexpected);
+            }
+            first.push(json!([channel_of(&f), fingerprint(&f)]));
+            Ok(())
+        })
+    }));
+    let res1 = match &r1 {
+        Ok(Ok(_)) => "ok",
+        Ok(Err(Error::FrameUnexpected)) => "refused",
+        Ok(Err(_)) => "other",
+        Err(_) => "panic",
+    };
+    let mut second: Vec<Value> = Vec::new();
+    let mut res2 = "skipped";
+    if res1 == "refused" {
+        // (whatever the first pass left unread still arrives; normally nothing is left)
+        let r2 = catch_unwind(AssertUnwindSafe(|| {
+            fb.read_from(&mut script, |f| {
+                second.push(json!([channel_of(&f), fingerprint(&f)]));
+                Ok(())
+            })
+        }));
+        res2 = match &r2 {
+            Ok(Ok(_)) => "ok",
+            Ok(Err(_)) => "other",
+            Err(_) => "panic",
+        };
+    }
+    st.calls += 2;
+    out.ev(json!({"ev": "handover", "k": k, "res1": res1, "first": first, "res2": res2, "second": second}));
+}
+
 fn wb_plan(cuts: &[usize], total: usize) -> Vec<(usize, Term)> {
     let mut v: Vec<(usize, Term)> = cuts.iter().map(|c| (*c, Term::Wb)).collect();
     v.push((total, Term::Wb));
@@ -723,6 +775,14 @@ fn main() {
         // would-block twice at the same offset (an empty segment) and at offset 0
         for c in (0..total).step_by(3) {
             run(&mut out, &mut st, "cut-empty", s, &wb_plan(&[c, c], total), Chunk::Full, 1);
+        }
+    }
+
+    // (a') hand-over: a first handler refuses frame k, a second one takes over on the same buffer
+    for s in &smalls {
+        for k in 1..=s.kinds.len() {
+            run_handover(&mut out, &mut st, s, k, Chunk::Full);
+            run_handover(&mut out, &mut st, s, k, Chunk::Fixed(3));
         }
     }
 
